@@ -4,6 +4,7 @@ import (
 	"bytes"
 	"encoding/binary"
 	"encoding/hex"
+	"errors"
 	"fmt"
 	"testing"
 	"time"
@@ -35,6 +36,25 @@ func runErrCodec(s gens.ErrSpec) (r pbt.Result) {
 		r.Failf("drpcerr.Code does not report the attached code")
 		r.Detailf("spec=%+v got=%d want=%d", s, code, want)
 		return
+	}
+	if s.HasCode && s.Code != 0 {
+		// a coded error (say a package-level sentinel) keeps its code when a differently coded error is derived from it
+		sentinel := drpcerr.WithCode(errors.New("sentinel"), s.Code)
+		other := s.Code + 1
+		if other == 0 {
+			other = 1
+		}
+		derived := drpcerr.WithCode(sentinel, other)
+		if drpcerr.Code(sentinel) != s.Code {
+			r.Failf("WithCode changed the code of the error it was given")
+			r.Detailf("sentinel code %d, derived with %d, sentinel now reports %d", s.Code, other, drpcerr.Code(sentinel))
+			return
+		}
+		if drpcerr.Code(derived) != other {
+			r.Failf("drpcerr.Code does not report the attached code")
+			r.Detailf("derived from a coded error: got %d want %d", drpcerr.Code(derived), other)
+			return
+		}
 	}
 	msg := err.Error()
 	data := drpcwire.MarshalError(err)
